@@ -30,14 +30,23 @@ RULE = ('pass level: modules from tools/gen/irgen.py (all features: x op x, call
         'verifier: each generated module clean and with each of 10 breaking edits.')
 EXPLANATION = ('Coq: (a) the well-formedness checker run on every real pass output is sound w.r.t. the independent '
                'definition Spec/IRWf.v for all modules (unbounded; dominance/reachability via C25 theorems); (b) hand model '
-               'of the ppci verifier: acceptance implies entry/shape/reachability/dominance of non-phi uses/phi input per '
-               'predecessor for all functions PROVIDED the stored uses cover the operands, and three refutations (accepted '
-               'yet ill-formed: phi input from a non-predecessor, stale uses, unop operand type); (c) hand model of the '
-               'bookkeeping mutators: refutations for the code as found (replace_use with a value in two slots, calls, '
-               'phis, JumpBase.delete, attribute setter, remove_from_block on jumps) and preservation of stored = derived '
-               'sets for the repaired code on 45120 exhaustively enumerated scenarios (bounded, not for all states). '
-               'The passes themselves are NOT modelled: pass-level assurance is translation validation of the sampled '
-               'runs by the verified checker (C02 owns the pass models).')
+               'of the ppci verifier (with one switch per proposed repair): c03_verifier_sound — acceptance implies '
+               'wf_function_except_gaps (entry, shape, reachability, unique block+value names, defined local uses, dominance '
+               'of non-phi uses, phi dominance for the first input block carrying a value, an input per predecessor, all '
+               'typing clauses the verifier checks) for all functions PROVIDED the stored uses cover the operands; five '
+               'refutations (accepted yet ill-formed: phi input from a non-predecessor, stale uses, unop operand type, value '
+               'on two phi inputs dominating only the first); c03_verifier_fixed_sound — with the four repairs '
+               'fixes/C03-verifier-*.diff no bookkeeping hypothesis is needed and the exact phi-input clause, phi dominance '
+               'on every input and Unop typing follow. Completeness (well-formed => accepted) is NOT proved (correspondence '
+               'only). block/value ids, target existence and Param/Glob ranges are importer invariants, CopyBlob/callee '
+               'pointer types are only enforced by the ir.py constructors. (c) hand model of the bookkeeping mutators: '
+               'refutations for the code as found; for the repaired code UNBOUNDED theorems that replace_use (plain, call, '
+               'phi, repeated operands), Value.replace_by, Phi.set_incoming and Phi.del_incoming preserve stored uses = '
+               'operands and stored used_by = derived users for every state (Proofs/C03_store_inv.v); Block.references '
+               '(set_target_block, change_target, delete), replace_incoming, remove_from_block and attachment are covered by '
+               'the bounded theorem only (45120 exhaustively enumerated scenarios). The passes themselves are NOT modelled '
+               '(no c03_pass_wf theorems): pass-level assurance is translation validation of the sampled runs by the verified '
+               'checker (C02 owns the pass models).')
 TRUSTED = ['tools/irimport.py (ppci.ir objects -> Coq syntax) and tools/gen/irgen.py',
            'hand models Model/Verify.v and Model/IRStore.v (cross-checked against the implementation on every run)',
            'CfgInfo.strictly_dominates of ppci is replaced in Model/Verify.v by the C25 reference dominance (property C25)',
@@ -55,13 +64,14 @@ MANIFEST = {
              'compared, and any exception counts as a crash (translation validation, not a proof about the passes). '
              'The primitive IR mutators and the IR verifier are modelled in Coq: defects of replace_use & co. are refuted '
              'with machine-checked witnesses, the repaired mutators preserve the bookkeeping on an exhaustive bounded '
-             'family, and acceptance by the verifier is proved to imply the structural clauses it checks (and shown not '
-             'to imply three others).'),
+             'family, and acceptance by the verifier is proved to imply well-formedness minus its recorded gaps '
+             '(each gap refuted by a witness, and closed for the verifier with the four proposed repairs).'),
     'note': ('trusted: irimport, irgen, hand models (cross-checked each run), C25 for ppci dominators; passes are validated '
-             'per run, not modelled; mutator preservation theorem is bounded (45120 scenarios)'),
+             'per run, not modelled; def-use mutator invariant unbounded, references/removal part bounded (45120 scenarios); '
+             'verifier completeness not proved'),
     'technique': 'verified validator + hand models + bounded exhaustive vm_compute'}
 
-COQ_PROOFS = ['Proofs/C03_wf.vo', 'Proofs/C03_verify.vo', 'Proofs/C03_store.vo', 'Lib/Val.vo']
+COQ_PROOFS = ['Proofs/C03_wf.vo', 'Proofs/C03_verify.vo', 'Proofs/C03_store.vo', 'Proofs/C03_store_inv.vo', 'Lib/Val.vo']
 FXKEYS = ['fx_replace_use', 'fx_call', 'fx_phi_replace', 'fx_phi_incoming', 'fx_jump_delete']
 FXDIFF = {'fx_replace_use': 'C03-replace-use-double', 'fx_call': 'C03-call-replace-use-repeated-args',
           'fx_phi_replace': 'C03-phi-replace-use-repeated', 'fx_phi_incoming': 'C03-phi-incoming-shared-value',
@@ -301,7 +311,7 @@ def run_one(ctx, O, irimport, build, names, origin, coq_cases, stats):
 
 
 def pass_level(ctx, O, irimport, irgen, ir):
-    n_mod = 120 if ctx.quick() else 1500
+    n_mod = 80 if ctx.quick() else 1500
     if ctx.failed_stages:
         n_mod *= 2
     stats, coq_cases = {}, {}
@@ -350,7 +360,7 @@ def pass_level(ctx, O, irimport, irgen, ir):
         for seq in seqs:
             total += 1
             clean += run_one(ctx, O, irimport, build, seq, origin, coq_cases, stats)
-    n_c02 = 40 if ctx.quick() else 500
+    n_c02 = 30 if ctx.quick() else 500
     for k in range(n_c02):
         seed = base + k
         size = 2 + k % 3
@@ -372,7 +382,7 @@ def pass_level(ctx, O, irimport, irgen, ir):
     # the verified checker on the imported outputs (expected value = verdict of the Python port)
     items = list(coq_cases.values())
     if ctx.quick():
-        items = items[:900]
+        items = items[:600]
     cases = [('wf_modul_b (%s)' % irimport.py_to_coq(c), ok) for c, ok in items]
     bad = ctx.run_cases('wf', ['Spec.IRSyntax', 'Model.IRWfCheck'], cases, shard=120)
     if bad:
@@ -393,7 +403,7 @@ def store_level(ctx, O):
                            'actual': 'KeyError or stale sets (see Props/C03.v c03_*_refuted)',
                            'how_to_replay': 'fixes/%s.diff repairs it; tools/props/c03_oracle.py probe_fixes()' % FXDIFF[k]})
     fxt = 'mk_fixes ' + ' '.join('true' if fx[k] else 'false' for k in FXKEYS)
-    n = 400 if ctx.quick() else 3000
+    n = 300 if ctx.quick() else 3000
     cases, meta, dist = [], [], {}
     for _ in range(n):
         specs, op = O.gen_scenario(ctx.rng)
@@ -431,6 +441,9 @@ def verifier_level(ctx, O, irimport, irgen):
     n = 20 if ctx.quick() else 150
     cases, meta, dist = [], [], {}
     gaps = {}
+    vx = O.probe_vfixes()
+    ctx.cov['stages']['verifier_configuration'] = vx
+    vxt = 'mk_vfixes ' + ' '.join('true' if vx[k] else 'false' for k in O.VXKEYS)
     base = ctx.rng.randrange(1 << 30)
     for k in range(n):
         for kind in (None,) + O.BREAKS:
@@ -447,11 +460,24 @@ def verifier_level(ctx, O, irimport, irgen):
             dist[key] = dist.get(key, 0) + 1
             if v == 'ok' and w is not None:
                 gaps.setdefault((kind, w.split(':')[1]), (base + k, w))
-            term = '(verify_module (%s) %s, wf_modul_b (%s))' % (
-                irimport.py_to_coq(c), O.vstates_to_coq(O.vstates(m)), irimport.py_to_coq(c))
+            term = '(verify_module_x (%s) (%s) %s, wf_modul_b (%s))' % (
+                vxt, irimport.py_to_coq(c), O.vstates_to_coq(O.vstates(m)), irimport.py_to_coq(c))
             exp = (OkV(None) if v == 'ok' else Diag if v == 'diag' else Internal, w is None)
             cases.append((term, exp))
             meta.append((base + k, kind, v, w))
+    # hand-made gap witnesses (Proofs/C03_verify.v w1..w4), always part of the correspondence
+    GAPNAME = {'vx_phi_exact': 'extra_phi_input', 'vx_unop': 'unop_type', 'vx_uses': 'stale_uses',
+               'vx_phi_all': 'phi_repeated_value'}
+    for k, m in O.gap_witnesses().items():
+        cw = irimport.module_to_py(m, True)
+        v, w = O.real_verify(m), O.pywf(cw)
+        dist['witness %s:%s:%s' % (k, v, w)] = 1
+        cases.append(('(verify_module_x (%s) (%s) %s, wf_modul_b (%s))' % (
+            vxt, irimport.py_to_coq(cw), O.vstates_to_coq(O.vstates(m)), irimport.py_to_coq(cw)),
+            (OkV(None) if v == 'ok' else Diag if v == 'diag' else Internal, w is None)))
+        meta.append(('witness', k, v, w))
+        if v == 'ok' and w is not None:
+            gaps.setdefault((GAPNAME[k], w.split(':')[1]), ('witness ' + k, w))
     ctx.cov['stages']['verifier_cases'] = dist
     bad = ctx.run_cases('verify', ['Spec.IRSyntax', 'Model.IRWfCheck', 'Model.Verify'], cases, shard=60)
     if bad:
